@@ -659,7 +659,7 @@ def rule_file5(prog, rep, tier, anchor="emit.file"):
                                 gnames |= names_in(t)
                             read_names = _names_read_from_path(prog, fi, it.context_expr)
                             unconditional = not gs
-                            if unconditional or (gnames & read_names):
+                            if unconditional or (gnames & read_names) or any(_guard_reads_path(prog, t, it.context_expr) for t, p in gs):
                                 good = True
         if good:
             rep.holds("FILE-5", "%s: appended text is separated from the existing last line" % anchor, loc(prog, w),
@@ -673,6 +673,24 @@ def rule_file5(prog, rep, tier, anchor="emit.file"):
                 % (anchor, ", ".join(sorted({c.qualname for c, _ in appenders if c}))), loc(prog, w)))
     if n == 0:
         raise AnalysisError("FILE-5: %s has append callers but no append-capable open was found" % anchor)
+
+
+def _guard_reads_path(prog, test, open_call):
+    """the test calls a repository function with the same path expression, and that function reads its parameter's file"""
+    p = open_call.args[0] if open_call.args else None
+    if p is None:
+        return False
+    for c in ast.walk(test):
+        if isinstance(c, ast.Call) and any(dump(a) == dump(p) for a in c.args):
+            for t in prog.resolve_expr_fn(c.func, c):
+                if isinstance(t, FunctionInfo):
+                    idx = next(i for i, a in enumerate(c.args) if dump(a) == dump(p))
+                    pn = t.params()[idx] if idx < len(t.params()) else None
+                    for f in prog.region(t):
+                        for oc in ast.walk(f.node):
+                            if isinstance(oc, ast.Call) and is_open(prog, oc) and open_mode(prog, oc)[0] == "read" and oc.args and isinstance(oc.args[0], ast.Name) and oc.args[0].id == pn:
+                                return True
+    return False
 
 
 def _starts_with_newline(e):
